@@ -4177,6 +4177,8 @@ class Qube(object):
 
         if isinstance(arg, Qube):
             self._require_broadcast_into('&=', arg)
+            if arg._item_ != self._item_:    # items are combined one by one
+                Qube._raise_unsupported_op('&=', self, arg)
             self._values_ &= (arg._values_ != 0)
             self._merge_mask_(arg._mask_)
         else:
@@ -4195,6 +4197,8 @@ class Qube(object):
 
         if isinstance(arg, Qube):
             self._require_broadcast_into('|=', arg)
+            if arg._item_ != self._item_:    # items are combined one by one
+                Qube._raise_unsupported_op('|=', self, arg)
             self._values_ |= (arg._values_ != 0)
             self._merge_mask_(arg._mask_)
         else:
@@ -4213,6 +4217,8 @@ class Qube(object):
 
         if isinstance(arg, Qube):
             self._require_broadcast_into('^=', arg)
+            if arg._item_ != self._item_:    # items are combined one by one
+                Qube._raise_unsupported_op('^=', self, arg)
             self._values_ ^= (arg._values_ != 0)
             self._merge_mask_(arg._mask_)
         else:
